@@ -125,9 +125,15 @@ N1 = {'x': _NAN, 'y': [_INF, -_INF, 1.5, 1e308, -0.0], 'big': 2 ** 70}
 N2 = {'x': _INF, 'y': [_NAN, 1.5, 5e-324], 'z': -_INF, 'big': -2 ** 70}
 PN1 = {'x': _NAN, 'y': [_INF, -_INF, 1.5, 1e308, -0.0], 'big': 2 ** 62}
 PN2 = {'x': _INF, 'y': [_NAN, 1.5, 5e-324], 'z': -_INF, 'big': -2 ** 62}
+# what only a pickle can hold: sets (nested in other containers), ordered dictionaries and class instances (constructor calls)
+S1 = {'tags': {'__set__': ['a', 'b']}, 'nested': [{'__fset__': [1, 2]}, {'k': {'__set__': [3]}}], 'plain': 1}
+S2 = {'tags': {'__set__': ['a', 'c']}, 'nested': [{'__fset__': [1, 2]}, {'k': {'__set__': [3, 4]}}], 'plain': 2}
+O1 = {'od': {'__odict__': [['x', 1], ['y', [1, 2]]]}, 'inst': {'__inst__': {'name': 'n', 'size': 3}}, 'same': {'__odict__': [['q', 'r']]}, 'v': 1}
+O2 = {'od': {'__odict__': [['x', 1], ['y', [1, 3]]]}, 'inst': {'__inst__': {'name': 'm', 'size': 3}}, 'same': {'__odict__': [['q', 'r']]}, 'v': 2,
+      'new': {'__inst__': {'z': []}}}
 FIXED = {
     'json': [(J1, J2), (J3, J4), (E1, E2), (C1, C2), (N1, N2)], 'json5': [(J1, J2), (J3, J4), (E1, E2), (C1, C2), (N1, N2)],
-    'yaml': [(J1, J2), (K1, K2), (E1, E2), (C1, C2), (N1, N2)], 'pickle': [(J1, J2), (K1, K2), (E1, E2), (C1, C2), (N1, N2)],
+    'yaml': [(J1, J2), (K1, K2), (E1, E2), (C1, C2), (N1, N2)], 'pickle': [(J1, J2), (K1, K2), (E1, E2), (C1, C2), (N1, N2), (S1, S2), (O1, O2)],
     'plist': [(P1, P2), ([1, 'a'], ['a', 1, 2.5]), (PE1, PE2), (PN1, PN2)], 'csv': [(T1, T2), ([['x']], [['x', 'y'], []]), (TE1, TE2), (TC1, TC2)],
     'xml': [(X1, X2), (X3, X4), (XE1, XE2), (XT1, XT2), (XT3, XT4), (XT5, XT6)],
     'html': [(X3, X4), (X1, X2), (XE1, XE2), (XT1, XT2), (XT4, XT3), (XT5, XT6)],
@@ -190,8 +196,23 @@ def run_job(job, seed, sink):
             sink.fast({'input': inp, 'a': a, 'b': b, 'format': fmt, 'mode': mode, 'style': style, 'j': j, 'identical': ident})
 
 
+class Rec:
+    """a plain class whose instances are pickled (the pickle file type shows them as constructor calls)"""
+    def __init__(self, **kw):
+        self.__dict__.update(kw)
+
+
 def decode_pairs(doc):
     if isinstance(doc, dict):
+        if set(doc) == {'__set__'}:
+            return set(decode_pairs(x) for x in doc['__set__'])
+        if set(doc) == {'__fset__'}:
+            return frozenset(decode_pairs(x) for x in doc['__fset__'])
+        if set(doc) == {'__odict__'}:
+            import collections
+            return collections.OrderedDict((k, decode_pairs(v)) for k, v in doc['__odict__'])
+        if set(doc) == {'__inst__'}:
+            return Rec(**{k: decode_pairs(v) for k, v in doc['__inst__'].items()})
         if set(doc) == {'__pairs__'}:
             out = {}
             for k, v in doc['__pairs__']:
